@@ -67,7 +67,7 @@ for i in range(16):
 PY
 fi
 log="fuzz/fuzz-$id-$$.log"
-VERIF_FUZZ_PROP=$id VERIF_FUZZ_GEN=$gen cargo +nightly fuzz run "$target" "$corpus" -- \
+VERIF_FUZZ_PROP=$id VERIF_FUZZ_GEN=$gen cargo +nightly fuzz run -s none "$target" "$corpus" -- \
     -runs=$runs -seed=$seed -max_len=4096 -len_control=0 -rss_limit_mb=6000 -timeout=120 \
     -max_total_time=${VERIF_FUZZ_SECONDS:-900} -print_final_stats=1 >"$log" 2>&1
 frc=$?
